@@ -27,6 +27,8 @@ def ref_encode(d, c):
     if k == "stringn":
         codec = {1: "utf-8", 2: "utf-16-le", 4: "utf-32-le"}[d[1]]
         return enc_int("uint", d[1]) + enc_int("uint", len(c)) + c.encode(codec)
+    if k == "stringi1":
+        return ref_encode(("stringi",), [c])
     if k == "stringi":
         out = bytes([len(c)])
         for (s, code, lang, cs) in c:
